@@ -20,7 +20,7 @@ SFILE = "python/gherkin/token_scanner.py"
 
 def _run(q, intr=None):
     I = new_interp()
-    I.no_fuse.add(f"{LQ}.split_table_cells")
+    I.no_fuse.add(N.SPLITTER_Q)
     if intr:
         I.intrinsics.update(intr)
     fi = I.facts.func(q)
@@ -55,7 +55,7 @@ def rule_line_basics(rep: Report, rid="C04.indent") -> None:
     ext = st.ext
     trimmed = ("call", ".lstrip", (text,), ())
     got_trimmed = ext.get((selft, N.TRIMMED), NONE)
-    ind = ext.get((selft, "indent"))
+    ind = ext.get((selft, N.INDENT))
 
     def leading_ws_count(t):
         """t counts the leading whitespace characters of the line: sum(1 for _ in takewhile(str.isspace, text)) / len(list(...))"""
@@ -79,26 +79,32 @@ def rule_line_basics(rep: Report, rid="C04.indent") -> None:
         rep.ob(rid, "indent = number of leading whitespace code points", ind is not None and lin_eq(ind, want), **kw, expected=fmt(want, I), found=fmt(ind, I) if ind else None)
     rep.eq(rid, "the raw line text is kept unchanged", fmt(text, I), fmt(ext.get((selft, N.RAW), NONE), I), **kw)
     rep.eq(rid, "the line number is kept", fmt(("param", fi.params()[2]), I), fmt(ext.get((selft, N.LINENO), NONE), I), **kw)
-    # helpers
-    I, fi, tree, rv, st = _run(f"{LQ}.get_rest_trimmed")
-    rep.used_function(fi.qualname)
-    selft = ("param", fi.params()[0])
-    n = ("param", fi.params()[1])
-    want = ("call", ".strip", (("slice", ("attr", selft, N.TRIMMED), n, NONE, NONE),), ())
-    rep.eq(rid, "get_rest_trimmed(n) = trimmed[n:].strip()", fmt(want, I), fmt(rv, I), file=LFILE, line=fi.node.lineno, function=fi.qualname)
-    I, fi, tree, rv, st = _run(f"{LQ}.get_line_text")
-    rep.used_function(fi.qualname)
-    selft = ("param", fi.params()[0])
-    n = ("param", fi.params()[1])
-    C = ("bool", "or", (mk_cmp("Lt", n, const(0)), mk_cmp("Gt", n, ("attr", selft, "indent"))))
-    want = mk_cond(C, ("attr", selft, N.TRIMMED), ("slice", ("attr", selft, N.RAW), n, NONE, NONE))
-    rep.eq(rid, "get_line_text(n) = the trimmed line if n < 0 or n > indent, else raw[n:]", fmt(want, I), fmt(rv, I), file=LFILE, line=fi.node.lineno, function=fi.qualname)
-    d = fi.node.args.defaults
-    rep.ob(rid, "get_line_text() defaults to the fully trimmed line", len(d) == 1 and isinstance(d[0], ast.UnaryOp) and ast.unparse(d[0]) == "-1",
-           file=LFILE, line=fi.node.lineno, function=fi.qualname, expected="indent_to_remove=-1", found=[ast.unparse(x) for x in d])
-    for name, want_fn in (("startswith", lambda s, a: ("call", ".startswith", (("attr", s, N.TRIMMED), a), ())),
-                          ("startswith_title_keyword", lambda s, a: ("call", ".startswith", (("attr", s, N.TRIMMED), ("binop", "Add", a, const(":"))), ())),
-                          ("is_empty", lambda s, a: mk_not(("attr", s, N.TRIMMED)))):
+    # helpers (found by the role they play for the token matcher; a helper the matcher does without constrains nothing -
+    # its callers are checked on their normal forms, into which helpers are inlined)
+    h_rest, h_text = N.line_helper("rest"), N.line_helper("text")
+    if h_rest and facts().has_func(f"{LQ}.{h_rest}"):
+        I, fi, tree, rv, st = _run(f"{LQ}.{h_rest}")
+        rep.used_function(fi.qualname)
+        selft = ("param", fi.params()[0])
+        n = ("param", fi.params()[1]) if len(fi.params()) > 1 else NONE
+        want = ("call", ".strip", (("slice", ("attr", selft, N.TRIMMED), n, NONE, NONE),), ())
+        rep.eq(rid, "the rest after a prefix of n characters = trimmed[n:].strip()", fmt(want, I), fmt(rv, I), file=LFILE, line=fi.node.lineno, function=fi.qualname)
+    if h_text and facts().has_func(f"{LQ}.{h_text}"):
+        I, fi, tree, rv, st = _run(f"{LQ}.{h_text}")
+        rep.used_function(fi.qualname)
+        selft = ("param", fi.params()[0])
+        n = ("param", fi.params()[1]) if len(fi.params()) > 1 else NONE
+        C = ("bool", "or", (mk_cmp("Lt", n, const(0)), mk_cmp("Gt", n, ("attr", selft, N.INDENT))))
+        want = mk_cond(C, ("attr", selft, N.TRIMMED), ("slice", ("attr", selft, N.RAW), n, NONE, NONE))
+        rep.eq(rid, "the line text with n columns of indentation removed = the trimmed line if n < 0 or n > indent, else raw[n:]", fmt(want, I), fmt(rv, I), file=LFILE, line=fi.node.lineno, function=fi.qualname)
+        d = fi.node.args.defaults
+        rep.ob(rid, "without an argument the line text is the fully trimmed line", len(d) == 1 and isinstance(d[0], ast.UnaryOp) and ast.unparse(d[0]) == "-1",
+               file=LFILE, line=fi.node.lineno, function=fi.qualname, expected="indent_to_remove=-1", found=[ast.unparse(x) for x in d])
+    for role, name, want_fn in (("prefix", N.line_helper("prefix"), lambda s, a: ("call", ".startswith", (("attr", s, N.TRIMMED), a), ())),
+                                ("title_prefix", N.line_helper("title_prefix"), lambda s, a: ("call", ".startswith", (("attr", s, N.TRIMMED), ("binop", "Add", a, const(":"))), ())),
+                                ("empty", N.line_helper("empty"), lambda s, a: mk_not(("attr", s, N.TRIMMED)))):
+        if name is None:
+            continue
         if not facts().has_func(f"{LQ}.{name}"):
             continue        # a helper that no longer exists constrains nothing; its callers are checked on their normal forms
         I, fi, tree, rv, st = _run(f"{LQ}.{name}")
@@ -106,8 +112,8 @@ def rule_line_basics(rep: Report, rid="C04.indent") -> None:
         s = ("param", fi.params()[0])
         a = ("param", fi.params()[1]) if len(fi.params()) > 1 else None
         want = want_fn(s, a)
-        okf = rv == want or (name == "is_empty" and rv in empty_forms(("attr", s, N.TRIMMED)))
-        rep.ob(rid, f"{name} tests the left-trimmed text", okf, file=LFILE, line=fi.node.lineno, function=fi.qualname, expected=fmt(want, I), found=fmt(rv, I))
+        okf = rv == want or (role == "empty" and rv in empty_forms(("attr", s, N.TRIMMED)))
+        rep.ob(rid, f"the {role} test reads the left-trimmed text", okf, file=LFILE, line=fi.node.lineno, function=fi.qualname, expected=fmt(want, I), found=fmt(rv, I))
 
 
 def _before_first_match(t):
@@ -126,7 +132,7 @@ def _before_first_match(t):
 
 
 def rule_tags(rep: Report, rid="C04.tags") -> None:
-    I, fi, tree, rv, st = _run(f"{LQ}.tags")
+    I, fi, tree, rv, st = _run(f"{LQ}.{N.TAGS}")
     rep.used_function(fi.qualname)
     selft = ("param", fi.params()[0])
     kw = dict(file=LFILE, line=fi.node.lineno, function=fi.qualname)
@@ -165,7 +171,7 @@ def rule_tags(rep: Report, rid="C04.tags") -> None:
     var = None
     for nm, upd in info.get("carried", {}).items():
         init = info.get("carried_init", {}).get(nm)
-        if init is not None and lin_eq(init, ("binop", "Add", ("attr", selft, "indent"), const(1))):
+        if init is not None and lin_eq(init, ("binop", "Add", ("attr", selft, N.INDENT), const(1))):
             var = nm
     rep.ob(rid, "the first tag's column is indent + 1", var is not None, **kw, expected="column = self.indent + 1 before the scan",
            found={k: fmt(v, I) for k, v in info.get("carried_init", {}).items()})
@@ -231,6 +237,14 @@ def _str_parts(t):
             for p_ in x[1]:
                 out_ += parts(p_) if (is_const(p_) and isinstance(p_[1], str)) else [("call", "str", (p_,), ())]
             return out_
+        if x[0] == "call" and x[1] == ".join" and len(x[2]) == 2 and is_const(x[2][0]) and isinstance(x[2][0][1], str) and x[2][1][0] == "tuple":
+            # sep.join((a, b, c)) over a display: the pieces in order, the separator between them
+            out_ = []
+            for i_, p_ in enumerate(x[2][1][1]):
+                if i_ and x[2][0][1]:
+                    out_.append(x[2][0])
+                out_ += parts(p_)
+            return out_
         return [x]
     out = []
     for p in parts(t):
@@ -264,7 +278,7 @@ def splitter_table():
     """Finite-class abstract interpretation of split_table_cells' loop body: one abstract run per
     (first_cell state, character-class sequence).  Returns (rows, problems, fi)."""
     I = new_interp()
-    q = f"{LQ}.split_table_cells"
+    q = N.SPLITTER_Q
     fi = I.facts.func(q)
     loop = _splitter_body(fi)
     problems = []
@@ -471,7 +485,7 @@ def _roles(rows):
 def rule_split_init(rep: Report, rid="C04.cells") -> None:
     """Initial splitter state and the column formula of table_cells."""
     I = new_interp()
-    q = f"{LQ}.split_table_cells"
+    q = N.SPLITTER_Q
     fi = I.facts.func(q)
     kw = dict(file=LFILE, line=fi.node.lineno, function=fi.qualname)
     rows, problems, _ = splitter_table()
@@ -498,7 +512,7 @@ def rule_split_init(rep: Report, rid="C04.cells") -> None:
     rep.eq(rid, "the first cell would start at column 1", const(1), st.env.get(startv), **kw)
     rep.eq(rid, "the cell text starts empty", const(""), st.env.get(cellv), **kw)
     # table_cells
-    I, fi2, tree, rv, st2 = _run(f"{LQ}.table_cells")
+    I, fi2, tree, rv, st2 = _run(f"{LQ}.{N.TABLE_CELLS}")
     rep.used_function(fi2.qualname)
     selft = ("param", fi2.params()[0])
     kw2 = dict(file=LFILE, line=fi2.node.lineno, function=fi2.qualname)
@@ -545,7 +559,7 @@ def rule_split_init(rep: Report, rid="C04.cells") -> None:
             rep.ob("C12.trim", "cell text = split cell with blanks (not line feeds) trimmed at both ends, after unescaping", False, **kw2,
                    expected="re.sub('[^\\S\\n]*$', '', re.sub('^[^\\S\\n]*', '', cell))", found=fmt(text, I))
             continue
-        want = ("binop", "Add", ("binop", "Add", col, ("attr", selft, "indent")), ("binop", "Sub", ("call", "len", (cell,), ()), ("call", "len", (l,), ())))
+        want = ("binop", "Add", ("binop", "Add", col, ("attr", selft, N.INDENT)), ("binop", "Sub", ("call", "len", (cell,), ()), ("call", "len", (l,), ())))
         rep.ob(rid, "cell column = splitter column + line indent + number of leading blanks removed", lin_eq(colt, want), **kw2, expected=fmt(want, I), found=fmt(colt, I))
 
 
